@@ -310,3 +310,111 @@ theorem liveIn_update {p : Pool} {pre post : List Block} {b b' : Block} {k : Nat
       exact keep h.2 h.1
 
 end Sqfs.MemPool
+
+namespace Sqfs.MemPool
+
+theorem w64_small {x : Nat} (h : x < 18446744073709551616) : w64 x = x := Nat.mod_eq_of_lt h
+
+theorem takeSlot_spec {p : Pool} {b : Block} (hwf : BlockWf p b) (hpos : 0 < b.objFree) (hc : p.bitmapCount ≤ 16384) :
+    ∃ k b', takeSlot p.objSize b = some (b.dataOff + k * p.objSize, b') ∧ k < 32 * p.bitmapCount ∧ bitAt b.bitmap k = false ∧
+      b'.id = b.id ∧ b'.base = b.base ∧ b'.dataOff = b.dataOff ∧ b'.limitOff = b.limitOff ∧ BlockWf p b' ∧
+      b.objFree = b'.objFree + 1 ∧
+      (∀ k', bitAt b'.bitmap k' = if k' = k then true else bitAt b.bitmap k') := by
+  have hfree := hwf.free
+  obtain ⟨i, hi⟩ := scanWords_of_clear (bm := b.bitmap) (by omega)
+  obtain ⟨hil, hiw⟩ := scanWords_some hi
+  obtain ⟨j, hj⟩ := scanBits_of_lt _ hiw
+  obtain ⟨_, hj32, hjclr⟩ := scanBits_some hj
+  have hkbit : bitAt b.bitmap (32 * i + j) = false := by
+    unfold bitAt
+    have h1 : (32 * i + j) / 32 = i := by omega
+    have h2 : (32 * i + j) % 32 = j := by omega
+    rw [h1, h2]; exact hjclr
+  have hle := clearBits_le b.bitmap
+  have hlen := hwf.len
+  have hcnt := clearBits_setBit hil (by omega) hkbit
+  refine ⟨i * 32 + j, { b with bitmap := setBit b.bitmap i j, objFree := w64 (b.objFree + 18446744073709551615) }, ?_, by omega, ?_, rfl, rfl, rfl, rfl, ?_, ?_, ?_⟩
+  · unfold takeSlot; rw [hi]; simp only []; rw [hj]
+  · rw [Nat.mul_comm i 32]; exact hkbit
+  · have : w64 (b.objFree + 18446744073709551615) = b.objFree - 1 := by unfold w64; omega
+    exact ⟨by simp [setBit_length, hlen], by simp only [this]; omega, hwf.lim, hwf.hdr, hwf.align⟩
+  · have : w64 (b.objFree + 18446744073709551615) = b.objFree - 1 := by unfold w64; omega
+    simp only [this]; omega
+  · intro k'
+    simp only [bitAt_setBit hil (show j < 32 by omega)]
+    rw [Nat.mul_comm i 32]
+    by_cases h : k' = 32 * i + j <;> simp [h]
+
+/-- what `walk` does in a consistent pool: never `stale`; `none` only when every block is full -/
+theorem walk_spec {p : Pool} (hc : p.bitmapCount ≤ 16384) : ∀ (bs : List Block), (∀ b ∈ bs, BlockWf p b) →
+    match walk p.objSize bs with
+    | .none => ∀ b ∈ bs, b.objFree = 0
+    | .stale _ => False
+    | .got bid off bs' => ∃ pre b post b' k, bs = pre ++ b :: post ∧ bs' = pre ++ b' :: post ∧ bid = b.id ∧
+        off = b.dataOff + k * p.objSize ∧ k < 32 * p.bitmapCount ∧ bitAt b.bitmap k = false ∧
+        b'.id = b.id ∧ b'.base = b.base ∧ b'.dataOff = b.dataOff ∧ b'.limitOff = b.limitOff ∧ BlockWf p b' ∧
+        (∀ k', bitAt b'.bitmap k' = if k' = k then true else bitAt b.bitmap k')
+  | [], _ => by simp [walk]
+  | b :: bs, h => by
+    unfold walk
+    by_cases hpos : b.objFree > 0
+    · obtain ⟨k, b', ht, hk, hclr, h1, h2, h3, h4, h5, _, h6⟩ := takeSlot_spec (h b (by simp)) hpos hc
+      simp only [hpos, if_true, ht]
+      exact ⟨[], b, bs, b', k, rfl, rfl, rfl, rfl, hk, hclr, h1, h2, h3, h4, h5, h6⟩
+    · have ih := walk_spec hc bs (fun x hx => h x (by simp [hx]))
+      simp only [hpos, if_false]
+      cases hw : walk p.objSize bs with
+      | none =>
+        rw [hw] at ih
+        intro x hx
+        rcases List.mem_cons.mp hx with rfl | hx
+        · omega
+        · exact ih x hx
+      | stale bs' => rw [hw] at ih; exact ih
+      | got bid off bs' =>
+        rw [hw] at ih
+        obtain ⟨pre, b0, post, b', k, e1, e2, rest⟩ := ih
+        exact ⟨b :: pre, b0, post, b', k, by simp [e1], by simp [e2], rest⟩
+
+theorem locate_some {bid off : Nat} : ∀ {bs pre : List Block} {b : Block} {post : List Block}, locate bid off bs = some (pre, b, post) →
+    bs = pre ++ b :: post ∧ b.id = bid ∧ b.dataOff ≤ off ∧ off < b.limitOff
+  | [], _, _, _, h => by simp [locate] at h
+  | x :: xs, pre, b, post, h => by
+    unfold locate at h
+    split at h
+    · rename_i hc
+      simp only [Option.some.injEq, Prod.mk.injEq] at h
+      obtain ⟨rfl, rfl, rfl⟩ := h
+      exact ⟨rfl, hc⟩
+    · cases hl : locate bid off xs with
+      | none => simp [hl] at h
+      | some r =>
+        obtain ⟨pre', b', post'⟩ := r
+        simp only [hl, Option.some.injEq, Prod.mk.injEq] at h
+        obtain ⟨rfl, rfl, rfl⟩ := h
+        obtain ⟨e, rest⟩ := locate_some hl
+        exact ⟨by simp [e], rest⟩
+
+theorem locate_none {bid off : Nat} : ∀ {bs : List Block}, (∀ b ∈ bs, ¬ (b.id = bid ∧ b.dataOff ≤ off ∧ off < b.limitOff)) → locate bid off bs = none
+  | [], _ => rfl
+  | x :: xs, h => by
+    unfold locate
+    simp only [h x (by simp), if_false]
+    rw [locate_none (fun b hb => h b (by simp [hb]))]
+
+theorem locate_of_mem {bid off : Nat} : ∀ {bs : List Block}, (∃ b ∈ bs, b.id = bid ∧ b.dataOff ≤ off ∧ off < b.limitOff) →
+    ∃ r, locate bid off bs = some r
+  | [], h => by simp at h
+  | x :: xs, h => by
+    unfold locate
+    by_cases hc : x.id = bid ∧ x.dataOff ≤ off ∧ off < x.limitOff
+    · simp [hc]
+    · simp only [hc, if_false]
+      obtain ⟨b, hb, hbc⟩ := h
+      rcases List.mem_cons.mp hb with rfl | hb
+      · exact absurd hbc hc
+      · obtain ⟨r, hr⟩ := locate_of_mem ⟨b, hb, hbc⟩
+        obtain ⟨a, b', c⟩ := r
+        simp [hr]
+
+end Sqfs.MemPool
